@@ -91,7 +91,8 @@ Definition kind_of_tok (s : string) : option nkind :=
   else if String.eqb s "4" then Some KNbns else None.
 
 (* parsed op; Purge's order is supplied by the interpreter (sorted keys of the current state) *)
-Inductive pop : Set := POp (o : op) | PPurge (now : Z) | PBytes (b : bytes) (now : Z).
+Inductive pop : Set := POp (o : op) | PPurge (now : Z) | PBytes (b : bytes) (now : Z)
+  | PStage (k : ip) (st : N).   (* the APPLICATION writes Host.HuntStage of FindIP(k): not a step of the library *)
 
 (* raw frames are turned into Rx ops as soon as the configuration is known *)
 Definition debyte (c : cfg) (p : pop) : pop :=
@@ -133,6 +134,11 @@ Definition op_of_tok (s : string) : option pop :=
       | _, _, _ => None
       end
   | ["D"] => Some (POp Drain)
+  | ["H"; i; st] =>
+      match ip_of_tok i, N_of_dec st with
+      | Some i, Some st => Some (PStage i st)
+      | _, _ => None
+      end
   | ["B"; hex; now] =>     (* a received frame as RAW BYTES: the summary is computed by Model/TablesGlue.v *)
       match bytes_of_tok hex, Z_of_dec now with
       | Some b, Some now => Some (PBytes b now)
@@ -155,6 +161,14 @@ Definition resolve (s : state) (p : pop) : op :=
   | POp o => o
   | PPurge now => Purge now (sorted_keys s)
   | PBytes _ _ => Drain      (* not reached: the dispatch applies [debyte] first *)
+  | PStage _ _ => Drain      (* not reached: the dispatch applies [pstep] *)
+  end.
+
+(* one token of a history: a library step, or the application writing an exported field it owns *)
+Definition pstep (c : cfg) (s : state) (p : pop) : state * out :=
+  match p with
+  | PStage k st => (upd_host k (set_hstage st) s, ONone)
+  | _ => step c s (resolve s p)
   end.
 
 (* ---------- printing ---------- *)
@@ -172,9 +186,10 @@ Definition show_host (e : ip * host) : string :=
   show_ip (fst e) ++ "/" ++ show_ip (h_ip (snd e)) ++ "/" ++ show_mac (h_mac (snd e)) ++ "/" ++ show_mac (h_mac (snd e)) ++ "/" ++
   b01 (h_online (snd e)) ++ b01 (h_dirty (snd e)) ++ "/" ++ dec_of_Z (h_last (snd e)) ++ "/" ++
   show_names (h_names (snd e)) ++
-  (* Host.HuntStage and Host.Manufacturer: written once at creation (StageNormal; the OUI lookup, empty for the locally
-     administered and test MACs of the universe) and by no step of the tables afterwards *)
-  "/normal/".
+  (* Host.HuntStage: set to normal when the record is created, afterwards written by the application only (op H) and read
+     by no step; Host.Manufacturer: the OUI lookup at creation, empty for the MACs of the universe *)
+  "/" ++ (if h_stage (snd e) =? 1 then "normal" else if h_stage (snd e) =? 2 then "hunt"
+          else if h_stage (snd e) =? 3 then "redirected" else "noop") ++ "/".
 
 Definition show_macent (e : macent) : string :=
   show_mac (m_mac e) ++ "/" ++ b01 (m_online e) ++ b01 (m_captured e) ++ b01 (m_router e) ++ "/" ++
